@@ -107,12 +107,26 @@ Definition gate (resolved : list (str * bool)) (r : value) : res bool :=
   | _ => Err EUndefined
   end.
 
+(* d["Type"] = v *)
+Fixpoint set_key (k : str) (v : value) (d : list (str * value)) : list (str * value) :=
+  match d with
+  | [] => [(k, v)]
+  | (k', x) :: r => if str_eqb k k' then (k', v) :: r else (k', x) :: set_key k v r
+  end.
+(* the Type of a resource is a literal: it is put back after resolution *)
+Definition keep_type (orig resolved : value) : value :=
+  match orig, resolved with
+  | VDict o, VDict d => match lookup K_Type o with Some (VStr t) => VDict (set_key K_Type (VStr t) d) | _ => resolved end
+  | _, _ => resolved
+  end.
+Definition resolve_resource (e : env) (r : value) : res value := r' <- resolve e r ;; Ok (keep_type r r').
+
 Fixpoint resolve_resources (e : env) (resolved : list (str * bool)) (rs : list (str * value)) : res (list (str * value)) :=
   match rs with
   | [] => Ok []
   | (id, r) :: rest =>
       keep <- gate resolved r ;;
-      if keep then r' <- resolve e r ;; rest' <- resolve_resources e resolved rest ;; Ok ((id, r') :: rest')
+      if keep then r' <- resolve_resource e r ;; rest' <- resolve_resources e resolved rest ;; Ok ((id, r') :: rest')
       else resolve_resources e resolved rest
   end.
 
